@@ -782,7 +782,10 @@ func Harness_C03_byte_flip() {
 	kind := V.Int("edit", 0, V.Param("edits", 2))
 	// positions 0..hl-1: an insertion goes in front of a header byte (a byte
 	// inserted after the final newline would be a payload change, C02)
-	hi := hl - 1
+	// The very last header byte (the newline closing the MAC line) is left to
+	// Harness_C03_edit_concrete: with it gone the parser reads on into the
+	// payload, and over a symbolic payload every byte forks on being a newline.
+	hi := hl - 2
 	pos := V.Int("posk", 0, hi/stride)*stride + V.Param("phase", 0)
 	V.Assume(pos <= hi)
 	c := V.Byte("c")
